@@ -521,7 +521,7 @@ def mutate(rng, doc):
     for _ in range(rng.choice([1, 1, 1, 2, 3])):
         if not doc:
             break
-        special = [i for i, c in enumerate(doc) if c in b"<>/"]
+        special = [i for i, c in enumerate(doc) if c in (b'<>/" =' if rng.random() < 0.3 else b"<>/")]
         r = rng.random()
         if r < 0.2:
             del doc[rng.randint(0, len(doc)):]                       # truncate
@@ -534,7 +534,7 @@ def mutate(rng, doc):
             i, j = rng.sample(special, 2)
             doc[i], doc[j] = doc[j], doc[i]                          # reorder delimiters
         elif r < 0.7:
-            doc.insert(rng.randint(0, len(doc)), rng.choice(b"><>/\x00 =\"?!"))   # stray byte
+            doc.insert(rng.randint(0, len(doc)), rng.choice(b"><>/\x00 =\"\"?!"))   # stray byte
         elif r < 0.78:
             i = rng.randint(0, len(doc) - 1)
             doc[i] = rng.choice(b"<>/\x00 a")                        # overwrite
@@ -581,7 +581,9 @@ def malformed_cases(rng, tier):
     # boundary documents, each with every constant program
     for d in [b"", b"<", b">", b"<>", b"</", b"</>", b"<a", b"<a>", b"<a/>", b"<a/", b"<?", b"<?>", b"<!", b"<!>", b"<?><", b"<?>< ",
               b"<a></a", b"<a><", b"<a></", b"<a><b", b"<a></a>", b"<a>>", b"<<a>>", b"< >", b"<  >", b"<a =>", b"<a ==>", b"<a =\">",
-              b"<a \">", b"<a>x>y<b></b></a>", b"<a><ab>x</ab></a>", b"<a/><b>", b"\x00", b"<\x00>", b"<a\x00></a\x00>"]:
+              b"<a \">", b'<a k=">', b'<a k="">', b'<a k=""">', b'<a k="v"">', b'<a k=""v">', b'<a k=""v"">', b'<a "k"="v">', b'<a k=\'v\'>',
+              b'<a k= >', b'<a  k="v">', b'<a k="v" >', b'<a k="v"  j="w">', b'<a k=">x</a>', b'<a k="v"">x</a>', b'<a "">x</a>', b'<a k=""" j="""">x</a>',
+              b"<a>x>y<b></b></a>", b"<a><ab>x</ab></a>", b"<a/><b>", b"\x00", b"<\x00>", b"<a\x00></a\x00>"]:
         for p in "dbsa":
             cases.append(Case([f"xml 0 {hx(d)} {p}"], dict(stream="mal", kind="boundary")))
     return cases
